@@ -160,4 +160,32 @@ Before(a, b) ==
 \* BTreeMap uses Ord) -- same group iff neither is before the other
 SameGroup(a, b) == ~Before(a, b) /\ ~Before(b, a)
 
+---------------------------------------------------------------------------------
+\* Decoder of the op stream (delta.rs DeltaBuilder::apply_op + Delta::deserialize).
+\* ops: sequence of [o |-> "Node", x, gc, from] | [o |-> "KV", k, v, ver, st] | [o |-> "SetMax", max].
+\* Returns [ok, delta] with delta a function member -> node-delta.  StrictSetMax = the decoder
+\* refuses a SetMaxVersion op that follows key-values of the same member (fix F-3).
+RECURSIVE DecodeFrom(_, _, _, _, _)
+DecodeFrom(ops, i, acc, cur, strict) ==
+  \* acc: delta so far; cur: <<>> or <<[x, nd]>> (the member being built)
+  LET flush == IF cur = <<>> THEN acc ELSE Put(acc, cur[1].x, cur[1].nd) IN
+  IF i > Len(ops) THEN [ok |-> TRUE, delta |-> flush]
+  ELSE LET op == ops[i] IN
+    IF op.o = "Node" THEN
+      IF op.x \in DOMAIN flush THEN [ok |-> FALSE, delta |-> EmptyFn]
+      ELSE DecodeFrom(ops, i + 1, flush,
+                      <<[x |-> op.x, nd |-> [from |-> op.from, gc |-> op.gc, max |-> 0, kvs |-> <<>>]]>>, strict)
+    ELSE IF cur = <<>> THEN [ok |-> FALSE, delta |-> EmptyFn]
+    ELSE IF op.o = "KV" THEN
+      IF ~(cur[1].nd.max < op.ver) THEN [ok |-> FALSE, delta |-> EmptyFn]
+      ELSE DecodeFrom(ops, i + 1, acc,
+             <<[x |-> cur[1].x,
+                nd |-> [cur[1].nd EXCEPT !.max = op.ver,
+                          !.kvs = Append(@, [k |-> op.k, v |-> op.v, ver |-> op.ver, st |-> op.st])]]>>, strict)
+    ELSE \* SetMax
+      IF strict /\ cur[1].nd.kvs # <<>> THEN [ok |-> FALSE, delta |-> EmptyFn]
+      ELSE DecodeFrom(ops, i + 1, acc, <<[x |-> cur[1].x, nd |-> [cur[1].nd EXCEPT !.max = op.max]]>>, strict)
+
+DecodeOps(ops, strict) == DecodeFrom(ops, 1, EmptyFn, <<>>, strict)
+
 =================================================================================
